@@ -170,9 +170,10 @@ def sum_tol(vals: List[float]) -> float:
 
 
 def term_table(lp: torch.Tensor) -> torch.Tensor:
-    """the elementwise part of `calculate_entropy` (float32, as the code computes it)"""
+    """the elementwise part of `calculate_entropy` (float32, as the code computes it): `logprobs.exp() * logprobs`;
+    the leading minus sign is the model's (`Params.entropyNegated`, extracted)"""
     l = torch.nan_to_num(lp, nan=0.0)
-    return -(l.exp() * l)
+    return l.exp() * l
 
 
 def decode_request(tr: Trace, *, store_all: bool, max_steps: int, eval_actions: Optional[torch.Tensor] = None,
@@ -1295,6 +1296,40 @@ def run_c13(ctx):
 
 
 # ------------------------------------------------------------------------------------------------------
+# C02 (decoding-loop clause)
+# ------------------------------------------------------------------------------------------------------
+
+
+def run_c02(ctx):
+    """The batched decoding loop on the two families for which the clause is a theorem (CVRP: 2n+1 passes, TSP: n): real
+    policies, mixed batches, every decode type; the recorded run is replayed through the model and the clause is judged on
+    the real outcome: all rows done at exit, number of passes within the bound (hence far from the safety cap), no pass on
+    a row whose action mask is all False."""
+    rng = ctx.rng
+    for env_name in ("cvrp", "tsp"):
+        for dt in DECODE_TYPES + ["sampling"]:
+            for _ in range(ctx.budget(2, 12)):
+                n = rng.choice([3, 4, 5, 6, 7])
+                B = rng.choice([1, 2, 3, 4])
+                multi = "multistart" in dt
+                res = c11_case(ctx, "am", env_name, n, B, dt, store_all=False, return_sum=True, S=(rng.choice([2, 3]) if multi else None),
+                               opts=draw_opts(rng, 0.6))
+                if res is None:
+                    continue
+                tr, out, model, meta = res[:4]
+                tag = res[7]
+                bound = (2 * n + 1) if env_name == "cvrp" else n
+                passes = model["steps"] + (1 if meta["multi"] else 0)  # a forced move is one of the episode's steps
+                ctx.count(f"c02:{env_name}:passes={passes}/{bound}")
+                if not model["alldone"]:
+                    ctx.violation("decode-loop-not-all-done", "the decoding loop exited with an unfinished row", {"case": tag, "passes": passes})
+                if passes > bound:
+                    ctx.violation("decode-loop-exceeds-step-bound", "the decoding loop made more passes than the environment's step bound",
+                                  {"case": tag, "passes": passes, "bound": bound, "actions": model["acts"][:2]})
+                # (`loop-evaluated-all-false-mask-row` is raised by compare_decode from the model's `safe` flag)
+
+
+# ------------------------------------------------------------------------------------------------------
 
 ORACLE_NOTE = ("the policy network and process_logits are an oracle π (uninterpreted function of the row's decoding state); "
                "the theorems hold for every π, the correspondence replays the real network's recorded per-step log-prob matrices")
@@ -1329,6 +1364,16 @@ C11_THEOREMS = [
     Theorem("Rl4co.Decode.evaluate_roundtrip_stochastic_counterexample", "proved",
             "¬ (round trip for networks whose forward pass depends on a context beyond the row state: random draws / batch statistics) — the full statement is false (known findings)"),
     Theorem("Rl4co.Decode.evaluate_roundtrip_stochastic_partial", "partial", "with the same context (generator state restored / same batch) the round trip holds"),
+    Theorem("Rl4co.Decode.maskVal_eq", "proved", "translator tie: extracted `logprobs[~mask] = 0` (polarity, constant) is what the proofs need"),
+    Theorem("Rl4co.Decode.getLLSum_eq", "proved", "translator tie: extracted summed axis of `logprobs.sum(1)`"),
+    Theorem("Rl4co.Decode.forcedRec_eq", "proved", "translator tie: extracted `zeros_like` of the forced multi-start move (both store_all_logp forms)"),
+    Theorem("Rl4co.Decode.loopFuel_eq", "proved", "translator tie: extracted comparator of `if step > max_steps: break`"),
+    Theorem("Rl4co.Decode.allDone_eq", "proved", "translator tie: extracted `while not td['done'].all()`"),
+    Theorem("Rl4co.Decode.evalSel_eq", "proved", "translator tie: extracted index of `actions[..., step]`"),
+    Theorem("Rl4co.Decode.betterEq_eq", "proved", "translator tie: extracted `.max` of _select_best and _select_best_beam"),
+    Theorem("Rl4co.Decode.selectBest_factor", "proved", "translator tie: extracted unbatchify factor `self.num_starts`"),
+    Theorem("Rl4co.Decode.calculateEntropy_eq", "proved", "translator tie: extracted leading minus of calculate_entropy"),
+    Theorem("Rl4co.Decode.ppoRatio_eq", "proved", "translator tie: extracted `ll.sum(-1) - old` (new minus old) of the PPO ratio; the exponent the harness compares on every mini-batch"),
     Theorem("Rl4co.Decode.select_best_is_max", "proved", "_select_best: the kept row belongs to the instance and maximises its rewards, for every valid arg-max outcome"),
     Theorem("Rl4co.Decode.select_best_reward", "proved", "its reward is Spec.bestReward of the instance"),
 ]
@@ -1346,6 +1391,12 @@ C13_THEOREMS = [
     Theorem("Rl4co.Decode.best_is_max", "proved", "_select_best_beam: returned row is one of the instance's beams and its reward is the maximum over them"),
     Theorem("Rl4co.Decode.beamDecode_reach", "proved", "policy(…, decode_type='beam_search') only visits reachable states when topk is correct, for every max_steps"),
     Theorem("Rl4co.Decode.validTop_sound", "proved", "the executable check run on every recorded topk outcome implies ValidTop"),
+    Theorem("Rl4co.Decode.topkLe_eq", "proved", "translator tie: extracted `torch.topk(…, self.beam_width, dim=1)` keeps the beam_width largest"),
+    Theorem("Rl4co.Decode.selectedOf_eq", "proved", "translator tie: extracted `selected = topk_ind % num_nodes`"),
+    Theorem("Rl4co.Decode.parentOf_eq", "proved", "translator tie: extracted `beam_parent = topk_ind // num_nodes`"),
+    Theorem("Rl4co.Decode.bbiOf_eq", "proved", "translator tie: extracted shape of `batch_beam_idx = batch_beam_sequence + beam_parent * batch_size`"),
+    Theorem("Rl4co.Decode.btFromActs_cons", "proved", "translator tie: extracted shape of the same expression in _backtrack"),
+    Theorem("Rl4co.Decode.beamForced_eq", "proved", "translator tie: extracted `zeros_like` of the beam pre hook"),
     Theorem("Rl4co.Decode.beams_mask_confined", "proved",
             "forced first move excepted, every beam is a mask-confined run (given per-step finite expansions and masked ⇒ −inf)"),
     Theorem("Rl4co.Decode.beams_mask_confined_full", "proved",
@@ -1360,6 +1411,23 @@ C13_THEOREMS = [
 register(Unit("C11", "loglik", run_c11, drivers=["drv_loglik"],
               lean_modules=["Rl4co.Props.C11.Loglik", "Rl4co.Props.C11.LoglikLoop"], theorems=C11_THEOREMS,
               assumptions=[ORACLE_NOTE, GLUE_NOTE, DET_NOTE, SCOPE_NOTE, COVER_NOTE]))
+C02_THEOREMS = [
+    Theorem("Rl4co.Decode.cvrp_decode_loop_terminates", "proved",
+            "∀ batch of WF CVRP instances (mixed sizes), ∀ π, ∀ mask-respecting selector, with/without forced admitted starts: 2n_r+1 ≤ bound ≤ max_steps ⇒ "
+            "the batched loop ends with all rows done after ≤ bound passes (cap not hit) and never evaluates an all-masked row"),
+    Theorem("Rl4co.Decode.cvrp_decode_loop_terminates_default", "proved", "the same with the default cap max_steps = 1_000_000 extracted from the source"),
+    Theorem("Rl4co.Decode.tsp_decode_loop_terminates", "proved",
+            "∀ rectangular batch of TSP instances (n ≥ 1), ∀ π, ∀ mask-respecting selector, with/without forced admitted starts: n ≤ max_steps ⇒ all rows done after ≤ n passes, "
+            "no all-masked row is ever evaluated (all rows finish together)"),
+    Theorem("Rl4co.Decode.cvrp_done_of_long", "proved", "every mask-confined CVRP episode of ≥ 2n+1 steps has finished (steps_le + done_stable + mask_nonempty)"),
+    Theorem("Rl4co.Decode.LoopHyp.shift", "proved", "C02's row facts survive a forced mask-admitted first move (multi-start / beam pre hook)"),
+    Theorem("Rl4co.Decode.hsel_firstFinite", "proved", "the selector hypothesis is satisfiable for every environment (policy = −inf on masked actions, selector = first finite entry)"),
+    Theorem("Rl4co.Decode.loopFuel_eq", "proved", "translator tie: extracted comparator of `if step > max_steps: break`"),
+]
+register(Unit("C02", "loglik", run_c02, drivers=["drv_loglik"], lean_modules=["Rl4co.Props.C02.Loglik"], theorems=C02_THEOREMS,
+              assumptions=[ORACLE_NOTE, "the decoding-loop clause of C02 is proved for CVRP and TSP by instantiating Decode.loop_terminates with the families' own "
+                           "steps_le / mask_nonempty / done_stable / run_length theorems; for the other families the loop theorem is available with the step bound as a hypothesis",
+                           "the selector hypothesis (only mask-admitted actions are emitted) is C10's"]))
 register(Unit("C13", "loglik", run_c13, drivers=["drv_loglik"], lean_modules=["Rl4co.Props.C13.Loglik", "Rl4co.Props.C13.LoglikFindings"], theorems=C13_THEOREMS,
               assumptions=[ORACLE_NOTE, GLUE_NOTE, DET_NOTE, COVER_NOTE,
                            "the property is judged on the real outcome before internals are compared: kept sets against scores re-accumulated independently "
